@@ -137,8 +137,7 @@ theorem interrogative_fronting_partial_phrase :
   intro sp ty i hi hf
   have hq : ty.questioned = true := by rw [questioned_eq ty i hi]; exact hf
   have hv := hasV_of_questioned sp ty hq
-  have hl : lin .phrase sp ty = some (linPh (midPh sp ty.pas) ty.int (clauseWords sp ty)) := by
-    simp [lin, hv]
+  have hl : lin .phrase sp ty = some (linPh (midPh sp ty.pas) ty.int (clauseWords sp ty)) := rfl
   have := realize_lin .phrase sp ty
   rw [hl] at this
   obtain ⟨out, hout, hmain⟩ := this
@@ -222,7 +221,7 @@ theorem agreement_with_passive_subject_partial_phrase :
     ∀ (sp : Spec) (ty : Typ) (out : Out), (∀ a, sp.obj ≠ some (.pro a)) → realize .phrase sp ty = .ok out →
       ty.int ≠ some .wos → ty.int ≠ some .was → out.agr = subjAgr sp ty.pas := by
   intro sp ty out hobj h h1 h2
-  rcases phrase_nf sp ty with ⟨out', hout', _, hagr⟩ | ⟨_, _, he⟩
+  obtain ⟨out', hout', _, hagr⟩ := phrase_nf sp ty
   · have e : realizePhraseW sp ty (clauseWords sp ty) = realize .phrase sp ty := rfl
     rw [e, h] at hout'
     injection hout' with e'
@@ -242,9 +241,6 @@ theorem agreement_with_passive_subject_partial_phrase :
     | some i =>
       cases i <;> simp_all <;> cases ty.pas <;> simp <;>
         (cases ho : sp.obj with | none => rfl | some o => cases o with | np a => rfl | pro a => exact absurd ho (hobj a))
-  · have e : realizePhrase sp ty = realize .phrase sp ty := rfl
-    rw [e, h] at he
-    cases he
 
 theorem agreement_with_passive_subject_partial_dep :
     ∀ (sp : Spec) (ty : Typ) (out : Out), ¬ (ty.pas = true ∧ sp.obj = none) → realize .dep sp ty = .ok out →
@@ -322,9 +318,7 @@ theorem args_phrase (sp : Spec) (ty : Typ) (out : Out) (h : realize .phrase sp t
   obtain ⟨L, hL, hmain⟩ := ok_lin .phrase sp ty out h
   rw [hmain, argsOf_map_resolve, ppsOf_map_resolve]
   simp only [lin] at hL
-  split at hL
-  · cases hL
-  · injection hL with hL; rw [hL]; exact ⟨rfl, rfl⟩
+  injection hL with hL; rw [hL]; exact ⟨rfl, rfl⟩
 
 /-- constituent notation: everything but the direct-object question of a passive, and prepositional questions whose
     first prepositional phrase does not fit while a later one does -/
@@ -445,8 +439,6 @@ theorem passive_swap_holds : passive_swap := by
     cases nt with
     | phrase =>
       simp only [lin] at hL
-      split at hL
-      · cases hL
       · injection hL with hL
         obtain ⟨X, hX, hmem⟩ := linPh_pps_last (midPh sp ty.pas) ty.int (clauseWords sp ty) hi
         have hm : (midPh sp ty.pas).pl = (s "by", demote (argTokOfSubj sp.subj)) :: ppArgs sp ∧
